@@ -103,6 +103,9 @@ func conforms(v Value, t ast.Type) bool {
 	return true
 }
 
+// VConforms: conforms, for contracts of other packages.
+func VConforms(v Value, t ast.Type) bool { return conforms(v, t) }
+
 // isScalarType: the types whose values carry no nested values.
 func isScalarType(t ast.Type) bool {
 	switch t.Kind() {
